@@ -98,7 +98,7 @@ def startsTok (ps : List Piece) (dflt : Bool) : Bool :=
   | .t _ _ :: _ => true
 
 def XExpr.prec : XExpr → Nat
-  | .lit _ => precLiteral
+  | .lit l => litPrec l
   | .id _ => precIdentifier
   | .un op _ => unPrec op
   | .bin op _ _ => binPrec op
@@ -154,10 +154,15 @@ def Decl.startsBracket : Decl → Bool
   | .arrN i => !i.needsScope && (i.isEmptyD || i.startsBracket)
   | _ => false
 
+/-- the object of a member access is an integer literal that `is_int_literal` parenthesises (07e6b1c) -/
+def memObjParenX : XExpr → Bool
+  | .lit l => litMemParen l
+  | _ => false
+
 mutual
 /-- `format_subexpression expr outer side` -/
 def fmtSubX : XExpr → Nat → Side → List Piece
-  | .lit n, outer, side => wrap (needParen precLiteral outer side) (litPiecesT n)
+  | .lit n, outer, side => wrap (needParen (litPrec n) outer side) (litPiecesT n)
   | .id n, outer, side => wrap (needParen precIdentifier outer side) [.t (.id n) n]
   | .un op x, outer, side =>
     let inner := fmtSubX x (unPrec op) (if isPostfix op then postfixOperandSide else prefixOperandSide)
@@ -178,7 +183,8 @@ def fmtSubX : XExpr → Nat → Side → List Piece
       (fmtSubX o precArraySubscript subObjectSide ++ (pp .LeftSquareBracket ::
         (fmtSubX i precArraySubscript subIndexSide ++ [pp .RightSquareBracket])))
   | .mem o n, outer, side =>
-    wrap (needParen precMember outer side) (fmtSubX o precMember memObjectSide ++ [pp .Period, .t (.id n) n])
+    wrap (needParen precMember outer side)
+      (wrap (memObjParenX o) (fmtSubX o precMember memObjectSide) ++ [pp .Period, .t (.id n) n])
   | .call f targs args, outer, side =>
     wrap (needParen precCall outer side)
       (fmtSubX f callObjectPrec callObjectSide ++ (fmtTArgs targs true ++
